@@ -7,5 +7,5 @@ ls /verif/benign/*.diff | xargs -P $J -I{} sh -c 'r=$(/verif/benigntest.sh {} 2>
 echo benign-done
 ls -d /verif/seeded/*/ | xargs -P $J -I{} sh -c 'id=$(basename {}); p=${id%-*}; /verif/try_seed.sh {}patch.diff $p 2>/dev/null | grep -q FIRED || echo "$id: NOT CAUGHT BY OWN PROPERTY"'
 echo seeds-done
-for p in C01 C02 C03 C04 C05 C06 C07 C08 C09 C10 C11 C12 C13 C14 C15 C16 C17 C18 C19 C20; do echo $p; done | xargs -P 4 -I{} sh -c './run.sh {} thorough 2>&1 | grep -i "SELFTEST-W\|VIOLATION"'
+for p in C01 C02 C03 C04 C05 C06 C07 C08 C09 C10 C11 C12 C13 C14 C15 C16 C17 C18 C19 C20; do echo $p; done | xargs -P 4 -I{} sh -c 'VERIF_NO_REPLAY=1 ./run.sh {} thorough 2>&1 | grep -i "SELFTEST-W\|VIOLATION"'
 echo thorough-done
